@@ -683,6 +683,8 @@ func c09Conc(cc c09Cell, env *Env) CellResult {
 				if !seenSig[v.Signature] {
 					seenSig[v.Signature] = true
 					v.Choices = r.Choices()
+					mustReproduce(v.Signature, v.Choices, body, check)
+				mustReproduce(v.Signature, v.Choices, body, check)
 					v.Extra, _ = json.Marshal(pi)
 					v.Detail += fmt.Sprintf("\n  program: A=%v B=%v", opNames(cc.A), opNames(pb))
 					res.Violations = append(res.Violations, v)
